@@ -502,8 +502,40 @@ fn promoted_summary<'tcx>(tcx: TyCtxt<'tcx>, pb: &Body<'tcx>) -> String {
                             }
                         }
                     }
-                    Rvalue::Use(Operand::Constant(c), ..) => {
+                    Rvalue::BinaryOp(_, ab) => {
+                        for o in [&ab.0, &ab.1] {
+                            if let Operand::Constant(c) = o {
+                                let ty = c.const_.ty();
+                                if ty.is_integral() || ty.is_bool() {
+                                    if let Some(si) = c.const_.try_eval_scalar_int(tcx, env) {
+                                        let bits = si.to_bits_unchecked();
+                                        if bits != 0 {
+                                            items.push(format!("{{\"v\":{}}}", bits));
+                                        }
+                                    }
+                                }
+                            }
+                        }
+                    }
+                    Rvalue::Use(Operand::Constant(c), ..) | Rvalue::Cast(_, Operand::Constant(c), _) => {
                         let ty = c.const_.ty();
+                        if let ty::Adt(adt, _) = ty.kind() {
+                            if adt.is_enum() {
+                                if let Some(si) = c.const_.try_eval_scalar_int(tcx, env) {
+                                    let bits = si.to_bits_unchecked();
+                                    for (vidx, var) in adt.variants().iter_enumerated() {
+                                        if adt.discriminant_for_variant(tcx, vidx).val == bits {
+                                            items.push(format!(
+                                                "{{\"adt\":{},\"var\":{},\"v\":{}}}",
+                                                esc(&dpath(tcx, adt.did())),
+                                                esc(&var.name.to_string()),
+                                                bits
+                                            ));
+                                        }
+                                    }
+                                }
+                            }
+                        }
                         if ty.is_integral() || ty.is_bool() {
                             if let Some(si) = c.const_.try_eval_scalar_int(tcx, env) {
                                 items.push(format!("{{\"v\":{}}}", si.to_bits_unchecked()));
